@@ -90,23 +90,21 @@ Proof.
   - repeat split; auto. apply retained_compact_app.
 Qed.
 
-(* A failed execution of a task that does not allow failure: the worker keeps the task at
-   the head, counts the failure, and — after the back-off — runs the very same task again,
-   with all its contexts (plus whatever was queued behind it for the same hook meanwhile);
-   no other task of the queue is started in between. *)
-Theorem fail_retries_same_task cfg qok q sy t rest :
-  q_running q = Some sy -> q_items q = t :: rest ->
+(* the worker picking a task that failed before (failure count already incremented): the very
+   same task is run again, with all its contexts (plus whatever was queued behind it for the
+   same hook meanwhile) *)
+Lemma retry_picks_same_task cfg qok name t rest :
   t_type t = HookRun -> t_allow t = false ->
   should_run (hook_v0 cfg (t_hook t)) (incr_fail t) = true ->
-  let q' := adv_one cfg qok (finish_one false false q) in
-  is_running q' = true /\
+  let q' := adv_one cfg qok (mkQ name (incr_fail t :: rest) None false) in
+  in_handler q' = true /\
   exists t' rest' block,
     q_items q' = t' :: rest' /\ rest = block ++ rest'
     /\ t_hook t' = t_hook t /\ t_fail t' = t_fail t + 1 /\ t_allow t' = false
     /\ retained (t_ctxs t) (t_ctxs t') = true
     /\ Forall (fun x => t_hook x = t_hook t) block.
 Proof.
-  intros R I Ty Al SR q'. unfold q', finish_one. rewrite R, I, Al. cbn [orb].
+  intros Ty Al SR q'. unfold q'.
   unfold adv_one. unfold is_running at 1. cbn [q_running q_items q_name].
   unfold fuel_for. rewrite advance_q_hookrun by exact Ty.
   unfold hook_v0 in SR. change (t_hook (incr_fail t)) with (t_hook t). cbv zeta.
@@ -125,17 +123,68 @@ Proof.
     + apply retained_refl.
 Qed.
 
-(* with allowFailure the failed execution is dropped and the queue proceeds with what follows *)
-Theorem allow_failure_drops q sy t rest ok :
-  q_running q = Some sy -> q_items q = t :: rest -> t_allow t = true ->
-  finish_one ok false q = mkQ (q_name q) rest None.
-Proof. intros R I Al. unfold finish_one. rewrite R, I, Al, orb_true_r. reflexivity. Qed.
+(* A failed execution of a task that does not allow failure, zero back-off: the worker keeps
+   the task at the head, counts the failure, and runs the very same task again at once;
+   no other task of the queue is started in between. *)
+Theorem fail_retries_same_task cfg qok q sy t rest :
+  q_running q = Some sy -> q_items q = t :: rest -> q_delay q = false ->
+  t_type t = HookRun -> t_allow t = false ->
+  should_run (hook_v0 cfg (t_hook t)) (incr_fail t) = true ->
+  let q' := adv_one cfg qok (finish_one false false false q) in
+  in_handler q' = true /\
+  exists t' rest' block,
+    q_items q' = t' :: rest' /\ rest = block ++ rest'
+    /\ t_hook t' = t_hook t /\ t_fail t' = t_fail t + 1 /\ t_allow t' = false
+    /\ retained (t_ctxs t) (t_ctxs t') = true
+    /\ Forall (fun x => t_hook x = t_hook t) block.
+Proof.
+  intros R I D Ty Al SR q'. unfold q', finish_one. rewrite R, I, D, Al. cbn [orb].
+  now apply retry_picks_same_task.
+Qed.
+
+(* The same with a positive back-off: the worker waits - the failed task stays the head,
+   the failure is counted, no execution is open and the worker's next rounds start nothing
+   ([adv_one] leaves the queue as it is), whatever [extra] tasks are queued meanwhile
+   (Op_Proofs.delayed_queue_only_grows: every action but the end of the delay only appends);
+   when the delay is over, the very same task is run again with all its contexts. *)
+Theorem fail_waits_then_retries cfg qok q sy t rest extra :
+  q_running q = Some sy -> q_items q = t :: rest -> q_delay q = false ->
+  t_type t = HookRun -> t_allow t = false ->
+  should_run (hook_v0 cfg (t_hook t)) (incr_fail t) = true ->
+  let q1 := finish_one false false true q in
+  q1 = mkQ (q_name q) (incr_fail t :: rest) (Some false) true
+  /\ in_handler q1 = false /\ adv_one cfg qok q1 = q1
+  /\ let q2 := mkQ (q_name q) (q_items q1 ++ extra) (q_running q1) true in
+     adv_one cfg qok q2 = q2
+     /\ let q' := adv_one cfg qok (elapse_one q2) in
+        in_handler q' = true /\
+        exists t' rest' block,
+          q_items q' = t' :: rest' /\ rest ++ extra = block ++ rest'
+          /\ t_hook t' = t_hook t /\ t_fail t' = t_fail t + 1 /\ t_allow t' = false
+          /\ retained (t_ctxs t) (t_ctxs t') = true
+          /\ Forall (fun x => t_hook x = t_hook t) block.
+Proof.
+  intros R I D Ty Al SR q1.
+  assert (E1 : q1 = mkQ (q_name q) (incr_fail t :: rest) (Some false) true).
+  { unfold q1, finish_one. rewrite R, I, D, Al. reflexivity. }
+  rewrite E1. split; [reflexivity|]. split; [reflexivity|]. split; [reflexivity|].
+  cbn [q_items q_running]. split; [reflexivity|].
+  unfold elapse_one. cbn [q_delay q_name q_items]. change ((incr_fail t :: rest) ++ extra) with (incr_fail t :: (rest ++ extra)).
+  now apply retry_picks_same_task.
+Qed.
+
+(* with allowFailure the failed execution is dropped and the queue proceeds with what follows,
+   whatever the back-off function would say *)
+Theorem allow_failure_drops q sy t rest ok wait :
+  q_running q = Some sy -> q_items q = t :: rest -> q_delay q = false -> t_allow t = true ->
+  finish_one ok false wait q = mkQ (q_name q) rest None false.
+Proof. intros R I D Al. unfold finish_one. rewrite R, I, D, Al, orb_true_r. reflexivity. Qed.
 
 (* a successful execution removes the task, once *)
-Theorem success_removes q sy t rest :
-  q_running q = Some sy -> q_items q = t :: rest ->
-  finish_one true false q = mkQ (q_name q) rest None.
-Proof. intros R I. unfold finish_one. rewrite R, I. reflexivity. Qed.
+Theorem success_removes q sy t rest wait :
+  q_running q = Some sy -> q_items q = t :: rest -> q_delay q = false ->
+  finish_one true false wait q = mkQ (q_name q) rest None false.
+Proof. intros R I D. unfold finish_one. rewrite R, I, D. reflexivity. Qed.
 
 (* a combined task may be dropped on failure only if every merged task allows failure *)
 Theorem combined_allow_iff_all t rest :
